@@ -250,8 +250,10 @@ class Run:
         ev = {"property_id": self.prop, "tier": self.tier, "seed": self.seed, "level": self.level,
               "coverage": cov, "assumptions": self.assumptions, "wall_s": round(wall, 2),
               "violations": len(seen)}
-        os.makedirs(os.path.join(ROOT, "evidence"), exist_ok=True)
-        with open(os.path.join(ROOT, "evidence", self.prop + ".json"), "w") as f:
+        # checks beyond the listed properties (ids not starting with C) keep their evidence apart from the manifest's
+        evdir = os.path.join(ROOT, "evidence") if self.prop.startswith("C") else os.path.join(ROOT, "evidence", "extra")
+        os.makedirs(evdir, exist_ok=True)
+        with open(os.path.join(evdir, self.prop + ".json"), "w") as f:
             json.dump(ev, f, indent=1, default=str)
         print("%s %s: %d TLC states, %d impl traces, %d evaluations, %.1fs, violations=%d known=%d" % (
             self.prop, self.tier, cov["states"], cov["traces_validated_against_impl"], cov["evaluations"],
